@@ -217,6 +217,47 @@ def built_cases(draw):
     }
 
 
+CUSTOM_ITEMS = ["max", "median", "slots", "mean=median", "mean=max",
+                "std=max", "std=median", "number=max", "number=slots"]
+
+
+@st.composite
+def history_cases(draw):
+    """1-3 small data sets and a sequence of 2-8 calls on them: expand,
+    collapse (any reference; no collapser, additional collapsers, collapsers
+    that replace mean / std / number), concat_collocations of some of the
+    data sets (its result can be used by later calls)."""
+    nparts = draw(st.sampled_from([1, 1, 2, 3]))
+    schema = draw(_schema())
+    parts = [draw(_part(schema, draw(st.sampled_from(
+        ["tiny", "small", "small"])))) for _ in range(nparts)]
+    collapse_step = st.fixed_dictionaries({
+        "op": st.just("collapse"),
+        "ds": st.integers(0, 5),
+        "reference": st.sampled_from(
+            ["default", "secondary", "default", "primary", "secondary",
+             "unknown"]),
+        "custom": st.one_of(
+            st.just([]),
+            st.lists(st.sampled_from(CUSTOM_ITEMS), min_size=1, max_size=3,
+                     unique_by=lambda c: c.partition("=")[0])),
+    })
+    expand_step = st.fixed_dictionaries({
+        "op": st.just("expand"), "ds": st.integers(0, 5)})
+    concat_step = st.fixed_dictionaries({
+        "op": st.just("concat"),
+        "ds": st.lists(st.integers(0, 2), min_size=2, max_size=3)})
+    steps = draw(st.lists(
+        st.one_of(collapse_step, collapse_step, collapse_step, expand_step,
+                  concat_step),
+        min_size=2, max_size=8))
+    return {
+        "source": "built", "names": draw(st.sampled_from(NAMES)),
+        "schema": schema, "parts": parts, "steps": steps,
+        "mandatory_only": draw(st.sampled_from([False] * 6 + [True])),
+    }
+
+
 def small_pattern_cases():
     """Every multiplicity pattern over at most 3 x 3 stored points (every
     point used), in p-major, s-major and reversed pair order and, up to four
